@@ -386,7 +386,7 @@ def span_resolve(K, cls, which):
     b = K.obj(cls, serial=K.int("end", lo, hi))
     k = K.int("k", -20, 20)
     step = K.int("step", -3, 3)
-    K.assume(step > 0)
+    K.assume(step != 0)
     first = None if which in ("both", "start") else a
     last = None if which in ("both", "end") else b
     sp = K.call(D.Span, first, last, step)
@@ -396,8 +396,9 @@ def span_resolve(K, cls, which):
     sp = K.binop("+", sp, k) if which != "none" else sp
     r = K.method(sp, "resolve", ctx)
     off = k if which != "none" else 0
-    exp_start = K.attr(cs, "serial") + off if first is None else K.attr(a, "serial") + off
-    exp_end = K.attr(ce, "serial") + off if last is None else K.attr(b, "serial") + off
+    # an open from-period is where the span sets out in its own direction: the context's start going forward, its end going backward
+    exp_start = K.ite(step > 0, K.attr(cs, "serial"), K.attr(ce, "serial")) + off if first is None else K.attr(a, "serial") + off
+    exp_end = K.ite(step > 0, K.attr(ce, "serial"), K.attr(cs, "serial")) + off if last is None else K.attr(b, "serial") + off
     K.ensure("resolved start", K.And(K.cls_of(K.getattr(r, "start")) is cls, K.attr(K.getattr(r, "start"), "serial") == exp_start))
     K.ensure("resolved end", K.And(K.cls_of(K.getattr(r, "end")) is cls, K.attr(K.getattr(r, "end"), "serial") == exp_end))
     K.ensure("resolved step", K.getattr(r, "step") == step)
@@ -517,3 +518,62 @@ def contextual_period_state(K, cls, which):
     rs = K.method(sp, "resolve", ctx)
     K.ensure("span.shift(k); span.shift(k2); resolve", K.And(K.attr(K.getattr(rs, "start"), "serial") == K.attr(cs, "serial") + k + k2,
                                                              K.attr(K.getattr(rs, "end"), "serial") == K.attr(ce, "serial") + k + k2))
+
+
+# ------------------------------------------------------------------------------ span constructors written as operators
+@contract("C09", targets=[P + "_SpannableMixin.__rshift__", P + "_SpannableMixin.__lshift__", P + "_SpannableMixin.__rrshift__",
+                          P + "_SpannableMixin.__rlshift__", P + "_SpannableMixin.__pow__", P + "Span.__init__", P + "Span._serials"],
+          instances=[(c, s) for c in ALL for s in ("forward", "backward")])
+def spans_written_with_operators(K, cls, direction):
+    """a >> b runs forward from a to b, a << b backward from b's right operand ... down to a; p ** n is the span of |n|
+    periods that starts at p and runs in the direction of the sign of n (a single period for |n| == 1, empty for 0)."""
+    lo, hi = (-60, 60) if cls is not D.DailyPeriod else (730000, 730200)
+    a = K.obj(cls, serial=K.int("a", lo, hi))
+    b = K.obj(cls, serial=K.int("b", lo, hi))
+    sa, sb = K.attr(a, "serial"), K.attr(b, "serial")
+    if direction == "forward":
+        sp = K.binop(">>", a, b)
+        K.ensure(">>: start, end, step", K.And(K.attr(K.getattr(sp, "start"), "serial") == sa,
+                                                K.attr(K.getattr(sp, "end"), "serial") == sb, K.getattr(sp, "step") == 1))
+        K.ensure(">>: length", K.length(sp) == K.ite(sb >= sa, sb - sa + 1, 0))
+        op = K.binop(">>", a, None)
+        K.ensure(">>: open end", K.And(K.attr(op, "needs_resolve") == True, K.getattr(op, "step") == 1))   # noqa: E712
+        op = K.binop(">>", None, b)
+        K.ensure(">>: open start", K.And(K.attr(op, "needs_resolve") == True, K.getattr(op, "step") == 1,   # noqa: E712
+                                         K.attr(K.getattr(op, "end"), "serial") == sb))
+    else:
+        sp = K.binop("<<", a, b)
+        K.ensure("<<: start, end, step", K.And(K.attr(K.getattr(sp, "start"), "serial") == sb,
+                                                K.attr(K.getattr(sp, "end"), "serial") == sa, K.getattr(sp, "step") == -1))
+        K.ensure("<<: length", K.length(sp) == K.ite(sb >= sa, sb - sa + 1, 0))
+        op = K.binop("<<", None, b)
+        K.ensure("<<: open", K.And(K.attr(op, "needs_resolve") == True, K.getattr(op, "step") == -1,   # noqa: E712
+                                   K.attr(K.getattr(op, "start"), "serial") == sb))
+    n = K.int("n", 2, 40)
+    signed = n if direction == "forward" else -n
+    sp = K.binop("**", a, signed)
+    sgn = 1 if direction == "forward" else -1
+    K.ensure("**: starts at the period", K.attr(K.getattr(sp, "start"), "serial") == sa)
+    K.ensure("**: direction", K.getattr(sp, "step") == sgn)
+    K.ensure("**: number of periods", K.length(sp) == n)
+    K.ensure("**: last period", K.attr(K.getattr(sp, "end"), "serial") == sa + sgn * (n - 1))
+    i = K.int("i", 0, 40)
+    K.assume(i < n)
+    e = K.index(sp, i)
+    K.ensure("**: i-th period", K.And(K.cls_of(e) is cls, K.attr(e, "serial") == sa + sgn * i))
+    one = K.binop("**", a, sgn)
+    K.ensure("** one period is the period itself", K.And(K.cls_of(one) is cls, K.attr(one, "serial") == sa))
+    K.ensure("** zero is the empty span", K.length(K.binop("**", a, 0)) == 0)
+
+
+@contract("C09", targets=[P + "Span.resolve", P + "ContextualPeriod.resolve", P + "Span.__init__", P + "_check_periods"],
+          instances=[(a, b, w) for (a, b) in PAIRS for w in ("start", "end")])
+def resolving_against_another_frequency_is_rejected(K, a, b, which):
+    """A span with one fixed end cannot be resolved against a context of another frequency."""
+    fixed = per(K, a, "fixed")
+    lo, hi = (-60, 60) if b is not D.DailyPeriod else (730000, 730200)
+    cs = K.obj(b, serial=K.int("ctx_start", lo, hi))
+    ce = K.obj(b, serial=K.int("ctx_end", lo, hi))
+    ctx = K.call(D.ResolutionContext, cs, ce)
+    sp = K.call(D.Span, None, fixed) if which == "start" else K.call(D.Span, fixed, None)
+    K.raises(W.IrisPieError, lambda: K.method(sp, "resolve", ctx), "resolve[mixed]")
